@@ -1,4 +1,5 @@
 import ZV.Model.C16
+import ZV.Model.C16Rd
 /-! line protocol for C16 (topic `c16`); byte-string arguments in the `Wire.parseBytes` syntax.
     sct-ser <pkg> <here|n> <ver> <logid> <ts> <ext> <hash> <alg> <sig>      → ser=<ok B|err> len=<n|err>
     sct-de  <pkg> <bytes>                                                   → ok ver logid ts ext hash alg sig rest=n | err
@@ -52,11 +53,39 @@ def showU : Res Unit → String
   | .err => "err"
   | .panic => "panic"
 
-def mkPrims (kind prim : String) : Option Prims :=
+/-- the primitive's verdict `prim` was computed by the harness for the digest `dg` (standard-library SHA-256 of the
+    harness's own RFC input); any other digest reaching the primitive is answered `false` -/
+def mkPrims (kind prim dg : String) : Option Prims :=
   let k : Option KeyKind := if kind == "rsa" then some .rsa else if kind == "ec" then some .ecdsa else none
-  match k with
-  | some k => some ⟨k, fun _ _ => prim == "1", fun _ _ => prim == "1"⟩
-  | none => none
+  match k, parseBytes dg with
+  | some k, some dg => some ⟨k, fun d _ => prim == "1" && d == dg, fun d _ => prim == "1" && d == dg⟩
+  | _, _ => none
+
+def parseScript (s : String) : Option Script :=
+  if s == "~" then some []
+  else (s.splitOn ",").mapM (fun e => if e == "!" then some Ev.fail else (parseBytes e).map Ev.data)
+
+def showErr : RErr → String
+  | .eof => "eof" | .uexp => "uexp" | .short => "short" | .other => "other"
+
+def showR {α} (f : α → String) (r : RRes α × Script) : String :=
+  (match r.1 with | .ok a => "ok " ++ f a | .fail e => showErr e) ++ " rest=" ++ toString (flat r.2).length
+
+def parseCurve (s : String) : Option (Option Curve) :=
+  if s == "p224" then some (some .p224) else if s == "p256" then some (some .p256) else if s == "p384" then some (some .p384)
+  else if s == "p521" then some (some .p521) else if s == "copy" then some (some .copy) else if s == "nil" then some none else none
+
+def parseKey (s : String) : Option Key :=
+  match s.splitOn ":" with
+  | ["rsa", "nilN"] => some (.rsa none)
+  | ["rsa", n] => n.toNat?.map (fun b => Key.rsa (some b))
+  | ["rsanil"] => some .rsaNil
+  | ["ec", c] => (parseCurve c).map Key.ecdsa
+  | ["ecnil"] => some .ecdsaNil
+  | ["other", _] => some .other
+  | _ => none
+
+def nat? (s : String) : Option Nat := s.toNat?
 
 def handle (args : List String) : String :=
   match args with
@@ -111,21 +140,75 @@ def handle (args : List String) : String :=
     match u8? ver, u64? size, u64? ts, parseBytes root with
     | some ver, some size, some ts, some root => showResB (sthSignatureInput ⟨ver, size, ts, root⟩)
     | _, _, _, _ => "bad-op"
-  | ["vsct", kind, prim, ver, ts, hash, alg, sig, lt, et, x509, ikh, tbs, ext] =>
-    match mkPrims kind prim, u8? ver, u64? ts, u8? hash, u8? alg, parseBytes sig with
+  | ["vsct", kind, prim, ver, ts, hash, alg, sig, lt, et, x509, ikh, tbs, ext, dg] =>
+    match mkPrims kind prim dg, u8? ver, u64? ts, u8? hash, u8? alg, parseBytes sig with
     | some p, some ver, some ts, some hash, some alg, some sig =>
       match u8? lt, u16? et, parseBytes x509, parseBytes ikh, parseBytes tbs, parseBytes ext with
       | some lt, some et, some x509, some ikh, some tbs, some ext =>
         showU (verifySCT p ver ts ⟨hash, alg, sig⟩ ⟨lt, et, x509, ikh, tbs, ext⟩)
       | _, _, _, _, _, _ => "bad-op"
     | _, _, _, _, _, _ => "bad-op"
-  | ["vsth", kind, prim, ver, size, ts, root, hash, alg, sig] =>
-    match mkPrims kind prim, u8? ver, u64? size, u64? ts, parseBytes root with
+  | ["vsth", kind, prim, ver, size, ts, root, hash, alg, sig, dg] =>
+    match mkPrims kind prim dg, u8? ver, u64? size, u64? ts, parseBytes root with
     | some p, some ver, some size, some ts, some root =>
       match u8? hash, u8? alg, parseBytes sig with
       | some hash, some alg, some sig => showU (verifySTH p ⟨ver, size, ts, root⟩ ⟨hash, alg, sig⟩)
       | _, _, _ => "bad-op"
     | _, _, _, _, _ => "bad-op"
+  | ["vsig", kind, prim, hash, alg, sig, data, dg] =>
+    match mkPrims kind prim dg, u8? hash, u8? alg, parseBytes sig, parseBytes data with
+    | some p, some hash, some alg, some sig, some data => showU (verifySignature p data ⟨hash, alg, sig⟩)
+    | _, _, _, _, _ => "bad-op"
+  | ["nsv", allow, key] =>
+    match parseKey key with
+    | some k =>
+      (match newSignatureVerifier (allow == "1") k with
+       | .ok .rsa => "ok rsa" | .ok .ecdsa => "ok ec" | .err => "err" | .panic => "panic")
+    | none => "bad-op"
+  | ["dsh", _, here, hash, alg, sig] =>
+    match u8? hash, u8? alg, parseBytes sig with
+    | some hash, some alg, some sig =>
+      let h : Option (Option Nat) := if here == "n" then some none else here.toNat?.map some
+      (match h with
+       | some h => showResB (marshalDSHere ⟨hash, alg, sig⟩ h)
+       | none => "bad-op")
+    | _, _, _ => "bad-op"
+  | ["rd-full", n, sc] =>
+    match nat? n, parseScript sc with
+    | some n, some sc => showR showBytes (readFull sc n [])
+    | _, _ => "bad-op"
+  | ["rd-uint", _, k, sc] =>
+    match nat? k, parseScript sc with
+    | some k, some sc => showR toString (readUintR sc k)
+    | _, _ => "bad-op"
+  | ["rd-var", _, k, sc] =>
+    match nat? k, parseScript sc with
+    | some k, some sc => showR showBytes (readVarBytesR sc k)
+    | _, _ => "bad-op"
+  | ["rd-list", tk, ek, sc] =>
+    match nat? tk, nat? ek, parseScript sc with
+    | some tk, some ek, some sc => showR showChain (readCertListR sc tk ek)
+    | _, _, _ => "bad-op"
+  | ["wr-uint", _, v, k] =>
+    match u64? v, nat? k with
+    | some v, some k => showResB (writeUintW v.toNat k)
+    | _, _ => "bad-op"
+  | ["wr-var", _, v, k] =>
+    match parseBytes v, nat? k with
+    | some v, some k => showResB (writeVarBytesW v k)
+    | _, _ => "bad-op"
+  | ["de-r", which, sc] =>
+    match parseScript sc with
+    | some sc =>
+      if !noFail sc then "bad-op"
+      else
+        let bs := flat sc
+        if which == "sct" || which == "xsct" then showPar showSCT (sctFmt.par bs)
+        else if which == "ds" || which == "xds" then showPar showDS (dsFmt.par bs)
+        else if which == "leaf" then showPar showLeaf (leafFmt.par bs)
+        else if which == "tse" then showPar showLeaf (leafFmt.par ([0, 0] ++ bs))   -- ReadTimestampedEntryInto = the leaf reader after version and leaf type
+        else "bad-op"
+    | none => "bad-op"
   | _ => "bad-op"
 
 end ZV.C16
